@@ -53,7 +53,12 @@ class TermInterp(Interp):
                 elif n.get('anon'):
                     res.append((s, l))
                 else:
-                    res.append((s, (l[0], l[1] + (n['rec'] + '::' + n['m'],))))
+                    fl = (l[0], l[1] + (n['rec'] + '::' + n['m'],))
+                    if (n['rec'] + '::' + n['m']) in self.ref_fields():
+                        pv = s.mem.get(fl)
+                        res.append((s, self.deref(s, pv, n) if pv is not None else (('ext', 'reffield:' + n['m']), ())))
+                    else:
+                        res.append((s, fl))
             return res
         return Interp.lv(self, n, st, fr)
 
